@@ -611,7 +611,10 @@ func (r *Request) executeHandler() {
 				// a valid way of sending an error response.
 				return
 			}
-			str = e.Message
+			// A nil *Error must not make the recover itself panic.
+			if e != nil {
+				str = e.Message
+			}
 		case error:
 			str = e.Error()
 			if !r.replied {
